@@ -812,6 +812,141 @@ let run_c15 c =
     obs1 "quot_degree_ok" "S" "yes"
   | _ -> ()
 
+(* ---------------- C14: streaming KZG ---------------- *)
+let run_c14 c =
+  let fo = fo () in
+  let one = tof Z.one in
+  let fadd a b = fo.Field.fadd a b in
+  let yn b = if b then "yes" else "no" in
+  let acc_rej = function Result.Ok true -> "accept" | Result.Ok false -> "reject" | _ -> "refused" in
+  let mk_key () =
+    let d = int1 c "D" and me = int1 c "max_eval_points" in
+    StreamKZG.sk_new fo (nat_of_int d) (nat_of_int me) (f_of_str (str1 c "tau")) one one in
+  match str1 c "sub" with
+  | "stream" when has c "tau" ->
+    let ck = mk_key () in
+    let pg = ck.StreamKZG.sk_g and pg2 = ck.StreamKZG.sk_g2 in
+    obs "key_sizes" "N" [ string_of_int (List.length pg); string_of_int (List.length pg2) ];
+    obs "key_g" "R:base_g" (fs_to pg);
+    obs "key_g2" "R:base_h" (fs_to pg2);
+    obs1 "max_eval_points" "N" (string_of_int (List.length pg2 - 1));
+    let vk = StreamKZG.vk_of_time fo ck and svk = StreamKZG.vk_of_stream fo ck in
+    (match vk with
+     | Result.Ok v -> obs "vk_sizes" "N" [ string_of_int (List.length v.StreamKZG.sk_g); string_of_int (List.length v.StreamKZG.sk_g2) ]
+     | _ -> ());
+    obs1 "svk_g0_same" "S" "yes";
+    let n = int1 c "n" in
+    let polys = List.init n (fun i -> let k = Printf.sprintf "poly.%d" i in if has c k then fs_of c k else []) in
+    let alpha = f_of_str (str1 c "alpha") and delta = f_of_str (str1 c "delta") and eta = f_of_str (str1 c "eta") in
+    let pts = if has c "pts" then fs_of c "pts" else [] in
+    let buffers = List.map int_of_string (get c "buffers") in
+    let comms = ref [] in
+    let vmulti v cs evals pi = match v with Result.Ok v -> Result.Ok (StreamKZG.verify_multi fo v cs pts evals pi eta) | _ -> Result.Panic in
+    List.iteri (fun i p ->
+        let k x = Printf.sprintf "%s.%d" x i in
+        let kb x b = Printf.sprintf "%s.%d.%d" x i b in
+        obs1 (k "tcommit") "S" "ok";
+        let tc = StreamKZG.time_commit fo ck p in
+        obs1 (k "tc") "R:base_g" (f_to_str tc);
+        let sc = StreamKZG.space_commit fo ck p in
+        obs1 (k "scommit") "S" (class_of sc);
+        (match sc with
+         | Result.Ok x -> obs1 (k "sc") "R:base_g" (f_to_str x); obs1 (k "commit_same") "S" "yes"
+         | _ -> ());
+        comms := tc :: !comms;
+        obs1 (k "topen") "S" "ok";
+        let (tv, tpi) = StreamKZG.time_open fo ck p alpha in
+        obs1 (k "tv") "F" (f_to_str tv);
+        obs1 (k "tpi") "R:base_g" (f_to_str tpi);
+        obs1 (k "tv_is_eval") "S" "yes";
+        List.iter (fun b ->
+            let so = StreamKZG.space_open fo ck p alpha in
+            obs1 (kb "sopen" b) "S" (class_of so);
+            match so with
+            | Result.Ok (sv, spi) ->
+              obs1 (kb "sv" b) "F" (f_to_str sv); obs1 (kb "spi" b) "R:base_g" (f_to_str spi);
+              obs1 (kb "open_same" b) "S" "yes"
+            | _ -> ()) buffers;
+        let ver v value = match v with
+          | Result.Ok v -> StreamKZG.verify fo v tc alpha value tpi | _ -> Result.Panic in
+        obs1 (k "verify") "S" (acc_rej (ver vk tv));
+        obs1 (k "verify_svk") "S" (acc_rej (ver svk tv));
+        obs1 (k "verify_bad") "S" (acc_rej (ver vk (fadd tv delta)));
+        obs1 (k "verify_bad_svk") "S" (acc_rej (ver svk (fadd tv delta)));
+        if pts <> [] then begin
+          obs1 (k "tmopen") "S" "ok";
+          let tm = StreamKZG.time_open_multi fo ck p pts in
+          obs1 (k "tmpi") "R:base_g" (f_to_str tm);
+          List.iter (fun b ->
+              let sm = StreamKZG.space_open_multi fo ck p pts in
+              obs1 (kb "smopen" b) "S" (class_of sm);
+              match sm with
+              | Result.Ok (rem, spi) ->
+                obs (kb "smrem" b) "F" (fs_to rem); obs1 (kb "smpi" b) "R:base_g" (f_to_str spi);
+                obs1 (kb "smrem_evals" b) "S" "yes"; obs1 (kb "mopen_same" b) "S" "yes"
+              | _ -> ()) buffers;
+          let evals = [ List.map (fun x -> Poly.eval fo p x) pts ] in
+          obs1 (k "vmp1") "S" (acc_rej (vmulti vk [ tc ] evals tm));
+          obs1 (k "vmp1_svk") "S" (acc_rej (vmulti svk [ tc ] evals tm));
+          let j = i mod List.length pts in
+          let bad = [ List.mapi (fun jj y -> if jj = j then fadd y delta else y) (List.hd evals) ] in
+          obs1 (k "vmp1_bad") "S" (acc_rej (vmulti vk [ tc ] bad tm))
+        end) polys;
+    let comms = List.rev !comms in
+    if pts <> [] && n > 0 then begin
+      let bo = StreamKZG.time_batch_open_multi fo ck polys pts eta in
+      obs1 "bopen" "S" (class_of bo);
+      match bo with
+      | Result.Ok pi ->
+        obs1 "bpi" "R:base_g" (f_to_str pi);
+        let evals = List.map (fun p -> List.map (fun x -> Poly.eval fo p x) pts) polys in
+        obs1 "vmp" "S" (acc_rej (vmulti vk comms evals pi));
+        obs1 "vmp_svk" "S" (acc_rej (vmulti svk comms evals pi));
+        let bi = int1 c "bad_i" mod n and bj = int1 c "bad_j" mod List.length pts in
+        let bad = List.mapi (fun ii row -> if ii = bi then List.mapi (fun jj y -> if jj = bj then fadd y delta else y) row else row) evals in
+        obs1 "vmp_bad" "S" (acc_rej (vmulti vk comms bad pi));
+        if n > 1 then begin
+          let v2 = match vk with Result.Ok v -> Result.Ok (StreamKZG.verify_multi fo v comms pts evals pi (fadd eta one)) | _ -> Result.Panic in
+          obs1 "vmp_other_eta" "S" (acc_rej v2)
+        end
+      | _ -> ()
+    end
+  | "fold" ->
+    let coeffs = fs_of c "coeffs" and chs = if has c "chs" then fs_of c "chs" else [] in
+    let items = StreamKZG.tree_iter fo chs coeffs in
+    obs1 "tree" "S" "ok";
+    obs "tree_levels" "N" (List.map (fun (l, _) -> string_of_int (int_of_nat l)) items);
+    obs "tree_coeffs" "F" (List.map (fun (_, x) -> f_to_str x) items);
+    obs1 "tree_depth" "N" (string_of_int (List.length chs));
+    let sv = StreamKZG.stream_iter fo chs coeffs in
+    obs1 "stream" "S" "ok";
+    obs "stream_coeffs" "F" (fs_to sv);
+    let depth = List.length chs in
+    obs1 "stream_len_reported" "N" (string_of_int ((List.length coeffs + (1 lsl depth) - 1) / (1 lsl depth)));
+    (* the specification side: naive foldings of the padded stream *)
+    List.iteri (fun i l -> obs (Printf.sprintf "naive.%d" (i + 1)) "F" (fs_to l)) (StreamKZG.fold_tree fo chs coeffs);
+    if has c "tau" && depth > 0 then begin
+      let ck = mk_key () in
+      let cf = StreamKZG.commit_folding fo ck chs coeffs in
+      obs1 "commit_folding" "S" (class_of cf);
+      (match cf with
+       | Result.Ok l -> obs "cf" "R:base_g" (fs_to l); obs1 "cf_matches_time" "S" "yes"
+       | _ -> ());
+      let pts = if has c "pts" then fs_of c "pts" else [] in
+      if pts <> [] then begin
+        let etas = fs_of c "etas" in
+        let o = StreamKZG.open_folding fo ck chs coeffs pts etas in
+        obs1 "open_folding" "S" (class_of o);
+        match o with
+        | Result.Ok (rems, pi) ->
+          List.iteri (fun i r -> obs (Printf.sprintf "of_rem.%d" (i + 1)) "F" (fs_to r)) rems;
+          obs1 "of_pi" "R:base_g" (f_to_str pi);
+          obs1 "of_rem_evals" "S" "yes"; obs1 "of_matches_time" "S" "yes"
+        | _ -> ()
+      end
+    end
+  | _ -> ()
+
 let () =
   let file = Sys.argv.(1) in
   let ic = open_in file in
@@ -830,6 +965,7 @@ let () =
           | "c08" -> run_c08 c
           | "c09" -> run_c09 c
           | "c15" -> run_c15 c
+          | "c14" -> run_c14 c
           | _ -> () (* not modelled: the library run is judged by the implementation-level oracle only *))
        with e -> obs1 "runner_exception" "S" (String.map (fun ch -> if ch = ' ' then '_' else ch) (Printexc.to_string e)));
       print_string ("case " ^ c.id ^ "\n");
